@@ -493,6 +493,55 @@ func closure(tree interface{}) []Mut {
 				}
 			}
 
+			// a verification method: every type with every form of the key material present / absent / empty
+			if _, isVM := t["type"].(string); isVM && hasKeyMember(t) {
+				b58, _ := t["publicKeyBase58"].(string)
+				if b58 == "" {
+					b58 = "H3C2AVvLMv6gmMNam3uVAjZpfkcJCwDwnZn6z3wXmqPV"
+				}
+
+				jwkObj, hasJWK := t["publicKeyJwk"]
+				if !hasJWK {
+					jwkObj = map[string]interface{}{"kty": "OKP", "crv": "Ed25519", "x": "7lC-MdLXkzF4NmnNv7nXkW5iTnRGc3m3qfTzBLCq0Po"}
+				}
+
+				forms := []struct {
+					n string
+					m map[string]interface{}
+				}{
+					{"none", map[string]interface{}{}},
+					{"b58", map[string]interface{}{"publicKeyBase58": b58}},
+					{"b58-empty", map[string]interface{}{"publicKeyBase58": ""}},
+					{"jwk", map[string]interface{}{"publicKeyJwk": jwkObj}},
+					{"jwk-empty", map[string]interface{}{"publicKeyJwk": map[string]interface{}{}}},
+					{"jwk-null", map[string]interface{}{"publicKeyJwk": nil}},
+					{"multibase", map[string]interface{}{"publicKeyMultibase": "z" + b58}},
+					{"multibase-empty", map[string]interface{}{"publicKeyMultibase": ""}},
+					{"hex", map[string]interface{}{"publicKeyHex": "00"}},
+					{"b58+jwk", map[string]interface{}{"publicKeyBase58": b58, "publicKeyJwk": jwkObj}},
+				}
+
+				for _, typ := range []string{"Ed25519VerificationKey2018", "Ed25519VerificationKey2020", "JsonWebKey2020",
+					"JwsVerificationKey2020", "X25519KeyAgreementKey2019", "Bls12381G2Key2020", "EcdsaSecp256k1VerificationKey2019"} {
+					for _, f := range forms {
+						c := map[string]interface{}{}
+
+						for kk, vv := range t {
+							if !strings.HasPrefix(kk, "publicKey") {
+								c[kk] = vv
+							}
+						}
+
+						for kk, vv := range f.m {
+							c[kk] = vv
+						}
+
+						c["type"] = typ
+						add(p, "vm-"+typ+"-"+f.n, c)
+					}
+				}
+			}
+
 			// DIDComm V1 / V2 member aliases (@id / id, @type / type): the plain name keeps the value while the
 			// decorated one changes type
 			for _, k := range sortedKeys(t) {
@@ -528,6 +577,14 @@ func closure(tree interface{}) []Mut {
 			add(p, "bool->str", fmt.Sprint(t))
 			add(p, "bool-flip", !t)
 		case *B64:
+			// a token part decoded into a struct: every shape in which one top-level member stands alone or is missing
+			// is a payload with nil sub-objects (delete is covered by the member paths)
+			if m, ok := t.V.(map[string]interface{}); ok && len(m) <= 16 {
+				for _, k := range sortedKeys(m) {
+					add(append(append([]step{}, p...), step{in: true}), "only-"+k, map[string]interface{}{k: m[k]})
+				}
+			}
+
 			add(p, "b64->plainobj", t.V)
 			add(p, "b64-trunc", t.Orig[:len(t.Orig)-1])
 			add(p, "b64-pad", t.Orig+"=")
@@ -609,4 +666,14 @@ func sortedKeys(m map[string]interface{}) []string {
 	sort.Strings(ks)
 
 	return ks
+}
+
+func hasKeyMember(m map[string]interface{}) bool {
+	for k := range m {
+		if strings.HasPrefix(k, "publicKey") && k != "publicKey" {
+			return true
+		}
+	}
+
+	return false
 }
